@@ -13,7 +13,20 @@ open Driver Impl.PyConv
   `topy <type> <value>` / `topyc <type> <value>` (comparable) → pyobj | `err:<kind>`
   `ofpy <type> <pyobj>` → value | `err:<kind>`
   `layout <type>` → `<mode> <path>=<namehex> …` (mode `dict`/`tuple`; pair or union node)
-  `inv <type>` → `true` | `false` -/
+  `inv <type>` → `true` | `false`
+extension: scalars `address key_hash key signature chain_id bls12_381_fr bls12_381_g1 bls12_381_g2 never`;
+  type `c <ann> <type>` (contract); pyobj `D<+|-><coef>e<exp>` (finite Decimal) | `Dnan` | `Dinf`;
+  any line may end with ` | <texthex>:<mask>:<rawhex|-> …`: what the real library says about the strings of the line —
+  mask = five binary digits `is_address is_pkh is_public_key is_sig is_chain_id`, raw = `base58_decode` (`-` if it
+  raises).  That table is the `valid` / `raw` parameter of the model for this line (base58 is C09's).
+try_unpack: `topyu <type> <value>` = `to_python_object(try_unpack=True)`; `unpack <hex|->` = `blind_unpack`; the table
+  may then hold `e:<prefixhex>:<payloadhex|->:<texthex>` (`base58_encode(payload, prefix)`) and
+  `u:<datahex|->:<pyobj tokens joined by ~>` (`micheline_value_to_python_object(unforge_micheline(data))`, absent when
+  that raises) — the `b58` / `unpackMich` parameters.
+ticket / lambda: types `k <ann> <type>` (ticket) and `f <ann> <type> <type>` (lambda); values `K<ticketerhex> <v> I<amount>`
+  and `f<codehex>` (code = the canonical JSON text of the body's Micheline); table entries `c:<codehex>:<texthex>`
+  (`micheline_to_michelson(code)`) and `p:<texthex>:<codehex>` (what the text parses and normalises to; absent when that
+  raises) — the `codeText` / `codeOfText` parameters. -/
 
 def readOpt (t : String) : Option (Option String) :=
   if t = "-" then some none
@@ -33,6 +46,9 @@ def readAnn (t : String) : Option Ann :=
 def readScalar : String → Option Scalar
   | "unit" => some .unit | "bool" => some .bool | "nat" => some .nat | "int" => some .int
   | "mutez" => some .mutez | "timestamp" => some .timestamp | "string" => some .string | "bytes" => some .bytes
+  | "address" => some .address | "key_hash" => some .keyHash | "key" => some .key | "signature" => some .signature
+  | "chain_id" => some .chainId | "bls12_381_fr" => some .blsFr | "bls12_381_g1" => some .blsG1
+  | "bls12_381_g2" => some .blsG2 | "never" => some .never
   | _ => none
 
 partial def readTy : List String → Option (Ty × List String)
@@ -42,11 +58,13 @@ partial def readTy : List String → Option (Ty × List String)
     pure (.scalar a sc, rest)
   | k :: a :: rest => do
     let a ← readAnn a
-    if k = "O" || k = "l" || k = "S" then
+    if k = "O" || k = "l" || k = "S" || k = "c" || k = "k" then
       let (t, r) ← readTy rest
       match k with
       | "O" => pure (.option a t, r)
       | "l" => pure (.list a t, r)
+      | "c" => pure (.contract a t, r)
+      | "k" => pure (.ticket a t, r)
       | _ => pure (.set a t, r)
     else
       let (l, r1) ← readTy rest
@@ -56,6 +74,7 @@ partial def readTy : List String → Option (Ty × List String)
       | "o" => pure (.or a l r, r2)
       | "m" => pure (.map a l r, r2)
       | "b" => pure (.bigMap a l r, r2)
+      | "f" => pure (.lambda a l r, r2)
       | _ => none
   | _ => none
 
@@ -80,6 +99,13 @@ mutual
         let (a, r1) ← readVal rest
         let (b, r2) ← readVal r1
         pure (.pair a b, r2)
+      | 'K' => do
+        let tk ← hexStr body
+        let (x, r1) ← readVal rest
+        match readVal r1 with
+        | some (.int n, r2) => pure (.ticket tk x n, r2)
+        | _ => none
+      | 'f' => (hexStr body).map fun code => (.lambda code, rest)
       | 'L' => do
         let (a, r1) ← readVal rest
         pure (.left a, r1)
@@ -130,6 +156,16 @@ mutual
       | 'I' => (parseInt body).map fun n => (.int n, rest)
       | 's' => (hexStr body).map fun s => (.str s, rest)
       | 'x' => (parseHex body).map fun b => (.bytes b, rest)
+      | 'D' =>
+        if body = "nan" then some (.decimalSpecial false, rest)
+        else if body = "inf" then some (.decimalSpecial true, rest)
+        else
+          match (body.drop 1).toString.splitOn "e" with
+          | [cf, ex] => do
+            let cf ← cf.toNat?
+            let ex ← parseInt ex
+            pure (.decimal (body.front == '-') cf ex, rest)
+          | _ => none
       | 't' => do
         let n ← body.toNat?
         let (xs, r) ← readPys n rest
@@ -171,6 +207,8 @@ mutual
     | .map kvs => ("m" ++ toString kvs.length) :: showKvs kvs
     | .bigMap kvs => ("b" ++ toString kvs.length) :: showKvs kvs
     | .bigMapId n => ["B" ++ toString n]
+    | .ticket tk x n => ("K" ++ strHex tk) :: (showVal x ++ ["I" ++ toString n])
+    | .lambda code => ["f" ++ strHex code]
   partial def showVals : List Val → List String
     | [] => []
     | x :: xs => showVal x ++ showVals xs
@@ -187,6 +225,8 @@ mutual
     | .int n => ["I" ++ toString n]
     | .str s => ["s" ++ strHex s]
     | .bytes b => ["x" ++ toHex b]
+    | .decimal n cf ex => ["D" ++ (if n then "-" else "+") ++ toString cf ++ "e" ++ toString ex]
+    | .decimalSpecial inf => [if inf then "Dinf" else "Dnan"]
     | .tuple xs => ("t" ++ toString xs.length) :: showPys xs
     | .list xs => ("l" ++ toString xs.length) :: showPys xs
     | .record fs => ("d" ++ toString fs.length) :: showFields fs
@@ -247,9 +287,99 @@ def handleWith (c : Cfg) (line : String) : String :=
     | _ => "bad-op"
   | _ => "bad-op"
 
+inductive Fact where
+  | text (s : String) (mask : List Bool) (raw : List Nat)
+  | enc (pre : String) (payload : List Nat) (text : String)
+  | unpacked (data : List Nat) (o : PyObj)
+  | codeText (code text : String)
+  | codeParse (text code : String)
+
+def hexBytes (h : String) : Option (List Nat) := if h = "-" then some [] else parseHex h
+
+/-- `<texthex>:<mask>:<rawhex|->` | `e:<prefixhex>:<payloadhex|->:<texthex>` | `u:<datahex|->:<tok~tok…>` -/
+def readFact (t : String) : Option Fact :=
+  match t.splitOn ":" with
+  | ["c", cd, tx] => do
+    let cd ← hexStr cd
+    let tx ← hexStr tx
+    pure (.codeText cd tx)
+  | ["p", tx, cd] => do
+    let tx ← hexStr tx
+    let cd ← hexStr cd
+    pure (.codeParse tx cd)
+  | ["e", p, pl, tx] => do
+    let p ← hexStr p
+    let pl ← hexBytes pl
+    let tx ← hexStr tx
+    pure (.enc p pl tx)
+  | ["u", d, toks] => do
+    let d ← hexBytes d
+    match readPy (toks.splitOn "~") with
+    | some (o, []) => pure (.unpacked d o)
+    | _ => none
+  | [h, m, r] => do
+    let s ← hexStr h
+    let raw ← hexBytes r
+    pure (.text s (m.toList.map (· == '1')) raw)
+  | _ => none
+
+def domIdx : Dom → Nat
+  | .address => 0 | .keyHash => 1 | .key => 2 | .signature => 3 | .chainId => 4
+
+/-- `get_originated_address(0)` (compared with the real function by the harness) -/
+def originated0 : String := "KT1BEqzn5Wx8uJrZNvuS9DVHmLvG9td3fDLi"
+
+def mkCfg (f : Flags) (facts : List Fact) (unpack : Bool) : Cfg :=
+  { toFlags := f
+    valid := fun d s => (facts.findSome? fun
+      | .text s' m _ => if s' == s then some (m.getD (domIdx d) false) else none
+      | _ => none).getD false
+    raw := fun s => (facts.findSome? fun
+      | .text s' _ r => if s' == s then some r else none
+      | _ => none).getD []
+    originated0 := originated0
+    tryUnpack := unpack
+    b58 := fun p pl => (facts.findSome? fun
+      | .enc p' pl' tx => if p' == p && pl' == pl then some tx else none
+      | _ => none).getD "?"
+    unpackMich := fun d => facts.findSome? fun
+      | .unpacked d' o => if d' == d then some o else none
+      | _ => none
+    codeText := fun cd => (facts.findSome? fun
+      | .codeText cd' tx => if cd' == cd then some tx else none
+      | _ => none).getD "?"
+    codeOfText := fun tx => facts.findSome? fun
+      | .codeParse tx' cd => if tx' == tx then some cd else none
+      | _ => none
+    codeOk := fun _ => true }
+
+def handleUnpack (f : Flags) (facts : List Fact) (l : String) : Option String :=
+  match words l with
+  | ["unpack", h] => (hexBytes h).map fun d => joinWith " " (showPy (blindUnpack (mkCfg f facts true) d))
+  | "topyu" :: ts =>
+    match readTy ts with
+    | some (τ, r) => match readVal r with
+      | some (v, []) => some (match toPy (mkCfg f facts true) false τ v with
+        | .ok py => joinWith " " (showPy py)
+        | .error e => showErr e)
+      | _ => some "bad-op"
+    | none => some "bad-op"
+  | _ => none
+
 def handle (line : String) : String :=
   match cfg? with
-  | some c => handleWith c line
+  | some f =>
+    let run (l : String) (facts : List Fact) : String :=
+      match handleUnpack f facts l with
+      | some out => out
+      | none => handleWith (mkCfg f facts false) l
+    match line.splitOn " | " with
+    | [l] => run l []
+    | [l, tbl] =>
+      match (words tbl).mapM readFact with
+      | some facts => run l facts
+      | none => "bad-op"
+    | _ => "bad-op"
   | none => "unrecognised-source"
 
 def main : IO Unit := mainWith handle
